@@ -65,11 +65,17 @@ def ywdGetYday (y : Nat) (w d : Int) : Nat :=
   let w : Int := if w < 0 then toS32 (toU32 (w + 1 + (getIsowk y : Int))) else w
   toU32 (7 * (w - 1) + d + hang)
 
-/-- `ywd_to_md(y, w, d)`; month 0 = no such day in `y` -/
-def ywdToMd (y : Nat) (w : Int) (d : Nat) : Md :=
-  let nwk : Int := getIsowk y
+/-- `ywd_to_md(y, of, w, d)`: weekday `d` of week `w` of the ISO year `y + of` (`of` one of -1, 0, 1) if that day lies
+in the calendar year `y`; month 0 = no such day in `y`.  (`iy = y + of` is `unsigned int` in C; the years in range
+are far from 0.) -/
+def ywdToMd (y : Nat) (of : Int) (w : Int) (d : Nat) : Md :=
+  let iy : Nat := ((y : Int) + of).toNat
+  let nwk : Int := getIsowk iy
   if w = 0 ∨ w > nwk ∨ w < -nwk then ⟨0, 0⟩ else
-  let yday : Int := toS32 (ywdGetYday y w d)
+  let yday0 : Int := toS32 (ywdGetYday iy w d)
+  -- counted from `y`'s first day
+  let yday : Int := if of > 0 then yday0 + (365 + (leapN y : Int))
+                    else if of < 0 then yday0 - (365 + (leapN iy : Int)) else yday0
   if yday ≤ 0 ∨ yday > 365 + (leapN y : Int) then ⟨0, 0⟩ else
   ydToMd y yday
 
@@ -116,8 +122,10 @@ def fillYlyYwd (cand : List Nat) (y : Nat) (woy dow : List Int) : List Nat :=
   woy.foldl (fun cand wk =>
     dow.foldl (fun cand dc =>
       if dc ≤ 0 ∨ dc > 7 then cand else
-      let md := ywdToMd y wk dc.toNat
-      if md.m = 0 then cand else assC cand (packCand md.m md.d)) cand) cand
+      -- week `wk` of `y` and of the years next to it
+      ([-1, 0, 1] : List Int).foldl (fun cand of =>
+        let md := ywdToMd y of wk dc.toNat
+        if md.m = 0 then cand else assC cand (packCand md.m md.d)) cand) cand) cand
 
 /-- `fill_mly_ymcw(cand, y, m, dow)`: the counted weekdays of BYDAY within month `m` -/
 def fillMlyYmcw (cand : List Nat) (y m : Nat) (dow : List Int) : List Nat :=
@@ -247,7 +255,8 @@ def limCand (cand : List Nat) (y : Nat) (mon : List Nat) (dom wk doy pdow : List
       ((match pdow with
         | [] => true
         | k :: _ => k == (w : Int)) &&
-       wk.any (fun k => let x := ywdToMd y k w; x.m == md.m && x.d == md.d))))
+       wk.any (fun k => ([-1, 0, 1] : List Int).any fun of =>
+         let x := ywdToMd y of k w; x.m == md.m && x.d == md.d))))
 
 /-! ### BYSETPOS on instances, the emission loop -/
 
